@@ -18,6 +18,8 @@ TIERS = {
     'quick': {'workers': 8, 'cases': 700, 'timeout': 600},
     'thorough': {'workers': 16, 'cases': 9000, 'timeout': 3000},
 }
+# further workloads for the property's online monitor (vf/online.py): the repository's tests and other checks' generated cases
+ONLINE = {'which': ['rt'], 'rt_classify': True, 'foreign': ['C01', 'C04', 'C05', 'C07', 'C10', 'C11', 'C12', 'C17', 'C20'], 'n': {'quick': 30, 'thorough': 400}}
 REQUIRED_BUCKETS = ['value:long-string', 'value:nested', 'value:reference', 'value:macro-ref', 'value:nonliteral-object', 'value:nonliteral-set', 'value:nan-inf',
                     'value:repr-looks-like-reference', 'value:repr-unbalanced', 'value:repr-looks-like-string', 'value:complex', 'macro:literal', 'macro:nonliteral',
                     'name:module-qualified-needed', 'name:method', 'name:case-variant-scope', 'name:case-variant-configurable', 'name:case-variant-macro',
